@@ -126,8 +126,10 @@ def rule_share(ctx):
     ci = bc["__init__"]
     thr_attr = None
     for n in walk_no_nested(ci):
-        if isinstance(n, ast.Assign) and isinstance(n.value, ast.Call) and is_method_call(n.value, "from_limits") and isinstance(n.targets[0], ast.Attribute):
-            thr_attr = n.targets[0].attr
+        if isinstance(n, ast.Assign) and isinstance(n.targets[0], ast.Attribute):
+            v = expand(p, n.value, ci)      # the throttle may be built into a local first
+            if isinstance(v, ast.Call) and is_method_call(v, "from_limits"):
+                thr_attr = n.targets[0].attr
     sites = [c for c in ast.walk(p.trees["client.py"]) if isinstance(c, ast.Call) and last_attr(c.func) in ("ThrottleStreamIO", "DataConnectionThrottleStreamIO") and kwarg(c, "throttles") is not None]
     ok = bool(sites) and thr_attr is not None
     for c in sites:
